@@ -152,6 +152,19 @@ func genC07Damages(s c07Subject, r *Rand, thorough bool) []c07Damage {
 		addLog("tail-half-record", append(append([]byte(nil), s.log...), rec[:n]...), len(s.log))
 	}
 	addLog("tail-full-record", append(append([]byte(nil), s.log...), rec...), len(s.log))
+	// every log damage again with the index file missing (Check: "the index file, if present, ...")
+	nLog := len(out)
+	for i := 1; i < nLog; i++ {
+		d := out[i]
+		if strings.HasPrefix(d.kind, "xor") || d.kind == "set00" {
+			if i%4 != 0 {
+				continue
+			}
+		}
+		d.kind += "+index-missing"
+		d.index, d.hasIdx = nil, false
+		out = append(out, d)
+	}
 	// index damages (log clean)
 	addIdx := func(kind string, idx []byte, has bool, pos int) {
 		out = append(out, c07Damage{kind: kind, log: s.log, index: idx, hasIdx: has, pos: pos})
@@ -675,7 +688,17 @@ func (s *c14Subject) involved(c readCall, b callResult) (lo, hi int) {
 			// segment holding the answer and, when the answer is the first message of its segment
 			// (reached by the hand-over from the previous one, or a run of equal times), its neighbours
 			i := s.segOf(b.msgs[0].Offset)
-			return maxInt(i-1, 0), minInt(i+1, last)
+			hi := minInt(i+1, last)
+			// a run of equal times: the walk goes from the newest segment down and reads the first
+			// message of every segment whose index starts exactly at the query time before it moves on
+			// to the older one
+			for j := i + 1; j <= last; j++ {
+				if len(s.segs[j].spans) == 0 || s.segs[j].spans[0].Msg.T != c.t {
+					break
+				}
+				hi = maxInt(hi, j)
+			}
+			return maxInt(i-1, 0), hi
 		}
 		return 0, last
 	case "ConsumeByKey":
